@@ -83,6 +83,16 @@ RECURSIVE IntProd(_, _)
 IntProd(a, b) == IF a > b THEN One ELSE IF a = b THEN QI(a)
                  ELSE LET m == (a + b) \div 2 IN MulR(IntProd(a, m), IntProd(m + 1, b))
 
+(* 1 + sum_{k=1}^{M} prod_{j=1}^{k} r_j for a sequence of ratio terms r, as a balanced tree:                 *)
+(* Seg(lo, hi) = <<prod_{j=lo}^{hi} r_j, sum_{k=lo}^{hi} prod_{j=lo}^{k} r_j>>                                   *)
+RECURSIVE RatioSeg(_, _, _)
+RatioSeg(rs, lo, hi) == IF lo = hi THEN <<rs[lo], rs[lo]>>
+                        ELSE LET m == (lo + hi) \div 2
+                                 a == RatioSeg(rs, lo, m)
+                                 b == RatioSeg(rs, m + 1, hi)
+                             IN <<MulR(a[1], b[1]), AddR(a[2], MulR(a[1], b[2]))>>
+RatioSeries(rs) == IF Len(rs) = 0 THEN One ELSE AddR(One, RatioSeg(rs, 1, Len(rs))[2])
+
 (* instantiate the variables of a schema term at a point (sequence of rationals) *)
 RECURSIVE Inst(_, _)
 RECURSIVE InstSeq(_, _)
@@ -489,12 +499,7 @@ GD2(a, x) == Lib("GammaPsecondDerivative", <<a, x>>)
 (* sum_{k=0}^{n-1} x^k / k!  in Horner form *)
 RECURSIVE ExpHorner(_, _, _)
 ExpHorner(x, k, n) == IF k >= n THEN One ELSE AddR(One, MulR(DivR(x, QI(k)), ExpHorner(x, k + 1, n)))
-(* beyond 60 terms: blocks of 50 terms, each a Horner chain relative to its first term (bounded recursion depth) *)
-RECURSIVE ChunkHorner(_, _, _)
-ChunkHorner(x, k, hi) == IF k > hi THEN One ELSE AddR(One, MulR(DivR(x, QI(k)), ChunkHorner(x, k + 1, hi)))
-ExpSumBlock(n, x, j) == LET b == 50 * j  hi == IF b + 49 < n - 1 THEN b + 49 ELSE n - 1
-                        IN MulR(DivR(PowR(x, QI(b)), FactT(b)), ChunkHorner(x, b + 1, hi))
-ExpSumT(n, x) == IF n <= 60 THEN ExpHorner(x, 1, n) ELSE SumR([jj \in 1..(((n - 1) \div 50) + 1) |-> ExpSumBlock(n, x, jj - 1)])
+ExpSumT(n, x) == IF n <= 40 THEN ExpHorner(x, 1, n) ELSE RatioSeries(TLCEval([j \in 1..(n - 1) |-> DivR(x, QI(j))]))
 EmX == Exp(Neg(X1))
 GIntAs == <<1, 2, 3, 5, 10, 20, 21, 29, 30, 31, 40>>
 (* P, Q, lower, upper, P', P'' for integer a as schemas in x *)
@@ -894,11 +899,10 @@ GammaUpperBig(a, x) == LET t == MulR(FactT(a - 1), MulR(Exp(Neg(QI(x))), ExpSumT
         MulR(t, AddR(AddR(One, QI(RAbs(a - 1 - x))), MulR(QI(a), Abs(Log(QF(x, a)))))), Zero, IF 4 * a < x THEN "fraction in logs" ELSE "Q and lgamma")
 (* lower: gamma(a, x) = x^a e^-x / a * sum_{k>=0} x^k / ((a+1)...(a+k)), tail after M terms below t_M x/(a+M+1) / (1 - x/(a+M+1)) *)
 LowerM == 80
-RECURSIVE LowerHorner(_, _, _)
-LowerHorner(a, x, k) == IF k > LowerM THEN One ELSE AddR(One, MulR(QF(x, a + k), LowerHorner(a, x, k + 1)))
-LowerBigList == << <<170, 1>>, <<171, 1>>, <<170, 10>>, <<171, 40>>, <<200, 1>>, <<200, 40>>, <<400, 40>>, <<170, 100>> >>
+LowerSeries(a, x) == RatioSeries(TLCEval([j \in 1..LowerM |-> QF(x, a + j)]))
+LowerBigList == << <<170, 1>>, <<171, 1>>, <<170, 10>>, <<171, 40>>, <<200, 1>>, <<200, 40>>, <<400, 1>>, <<170, 100>> >>
 GammaLowerBig(a, x) == LET pre == DivR(MulR(PowR(QI(x), QI(a)), Exp(Neg(QI(x)))), QI(a))
-                           t   == MulR(pre, LowerHorner(a, x, 1)) IN
+                           t   == MulR(pre, LowerSeries(a, x)) IN
   EqRec("gammalower.big", KOf("gammalower.big"), <<RInt(a), RInt(x)>>, GLL(QI(a), QI(x)), t,
         MulR(t, AddR(AddR(One, QI(RAbs(a - 1 - x))), MulR(QI(a), Abs(Log(QF(x, a)))))),
         MulR(MulR(pre, Two), PowR(QF(x, a + LowerM), QI(LowerM))), IF a > 4 * x THEN "series in logs" ELSE "P and lgamma")
@@ -912,10 +916,9 @@ GammaD1Big(a, x) == LET t == DivR(MulR(PowR(QI(x), QI(a - 1)), Exp(Neg(QI(x)))),
 (*   I_v(x) = (x/2)^v / Gamma(v+1) sum_k (x^2/4)^k / (k! (v+1)_k); the terms decrease by more than 1/2 beyond M    *)
 (* implementation: v >= 170 prefix in logarithms; x/v < 1/4 series, otherwise CF1 + Wronskian with rescaled K        *)
 SerM == 100
-RECURSIVE SerHorner(_, _, _)
-SerHorner(y, n, k) == IF k > SerM THEN One ELSE AddR(One, MulR(DivR(y, MulR(QI(k), QF(2 * n + 1 + 2 * k, 2))), SerHorner(y, n, k + 1)))
+SerSeries(y, n) == RatioSeries(TLCEval([j \in 1..SerM |-> DivR(y, MulR(QI(j), QF(2 * n + 1 + 2 * j, 2)))]))
 BesSerT(n, x) == LET y == Q(RDiv(RMul(x, x), RInt(4))) IN
-  MulR(DivR(PowR(Q(RDiv(x, RInt(2))), QF(2 * n + 1, 2)), GammaHalfT(n + 1)), SerHorner(y, n, 1))
+  MulR(DivR(PowR(Q(RDiv(x, RInt(2))), QF(2 * n + 1, 2)), GammaHalfT(n + 1)), SerSeries(y, n))
 (* relative tail bound: 2 (y^(M+1) / ((M+1)! (v+1)_(M+1))) <= 2 (y / ((M+1)(v+M+1)))^(M+1) * ... : use the crude y^M/(M!)^2 bound *)
 BesSerTail(n, x) == LET y == Q(RDiv(RMul(x, x), RInt(4))) IN MulR(Two, DivR(PowR(y, QI(SerM + 1)), MulR(FactT(SerM + 1), PowR(QI(n), QI(SerM + 1)))))
 BesSerList == << <<100, RInt(1)>>, <<100, RInt(20)>>, <<168, RInt(10)>>, <<169, RInt(10)>>, <<170, RInt(40)>>, <<200, RInt(10)>>, <<200, RInt(49)>>,
